@@ -1,6 +1,7 @@
 (* C13 -- a failing output writer aborts rendering with the writer error.
    Only statements, `exact`, and Print Assumptions live here. *)
 From Verif Require Import Bytes Facts_render RendererM TCalcM TCalc_proofs.
+From Verif Require Import WriteProgM WriteProg_proofs Facts_writes WriteFacts_proofs.
 Open Scope N_scope.
 
 (* Full statement over the runtime calculus (every tree of functions with
@@ -58,6 +59,82 @@ Theorem host_does_not_panic_refuted :
     snd (run_main showf conv false w main) = RunErr e.
 Proof.
   eexists _, _, 1, 7, _, _. exact conv_fatal_refutes.
+Qed.
+
+(* ---------------------------------------------------------------- the Write calls of one show *)
+
+(* C13_holds takes a show function as the list of its Write calls (sv_chunks)
+   run with early exit.  The show functions that issue several calls have
+   their own error handling: escapeBytes with the encoder of encoding/base64
+   (blocks of 768 bytes, the rest, the last bytes at Close, the error kept by
+   the encoder; used by []byte values in JS, JSON, CSS and CSS strings),
+   showInJS / showInJSON of strings, times, arrays, slices, structs and maps
+   (the err variable carried through the if err == nil chains and tested at
+   the head of each iteration), showInCSS of a string, and the escapers of
+   strings.  WriteProgM models them as they are written, as functions of the
+   writer; here: each is equal to the early-exit run of its calls, for every
+   value, every context they are modelled in, every writer and every writer
+   state -- which is what C13_holds assumes of a show function. *)
+Definition C13_show_writes_statement : Prop :=
+  forall (ctx : N) (v : sval) (p : wprog),
+    show_prog ctx v = Some p ->
+    exists view, show_view ctx v = Some view /\
+      forall (w : writer) (ws : wst), p w ws = run_shown view w ws.
+
+Theorem show_writes_are_scripts : C13_show_writes_statement.
+Proof.
+  intros ctx v p Hp. destruct (show_prog_view_defined ctx v p Hp) as [view Hv].
+  exists view. split; [exact Hv|]. exact (show_prog_view ctx v p view Hp Hv).
+Qed.
+Print Assumptions show_writes_are_scripts.
+
+(* hence, for every value, context and k: a writer failing for the first time
+   at its k-th call (k at most the number of calls of the successful run) gets
+   exactly k calls, has accepted the first k - 1 chunks, and the show function
+   returns the error of the writer *)
+Theorem show_write_fail_stops_holds :
+  forall (ctx : N) (v : sval) (p : wprog) (view : list bytes * option werr) (w : writer) (k : N) (e : werr),
+    show_prog ctx v = Some p -> show_view ctx v = Some view ->
+    first_fail w k e -> 0 < k -> k <= nlen (fst view) ->
+    let x := p w w0 in
+    w_calls (fst x) = k /\ w_out (fst x) = firstn (N.to_nat (k - 1)) (fst view) /\ snd x = RErr e.
+Proof. exact show_write_fail_stops. Qed.
+Print Assumptions show_write_fail_stops_holds.
+
+(* and no call is made after the failing one, wherever it is *)
+Theorem show_no_write_after_failure_holds :
+  forall (view : list bytes * option werr) (w : writer) (k : N) (e : werr),
+    first_fail w k e -> 0 < k -> w_calls (fst (run_shown view w w0)) <= k.
+Proof. exact run_shown_no_write_after_failure. Qed.
+
+(* the parts: escapeBytes and the composite values of showInJS / showInJSON *)
+Theorem escapeBytes_writes_holds : forall q b w ws,
+  escapeBytes q b w ws = write_all (escapeBytes_chunks q b) w ws.
+Proof. exact escapeBytes_view. Qed.
+Theorem show_js_writes_holds : forall v w ws, show_js v w ws = run_shown (js_chunks v) w ws.
+Proof. exact show_js_view. Qed.
+
+(* T1: escapeBytes as gofacts executes it (the statements of escapers.go run
+   by the partial evaluator with a simulated writer failing at its k-th call,
+   every k of every configuration: quotes or not, the encoder writing at Close
+   or not): no call after the failing one, the error of the failing call is
+   returned; the hand model makes the same calls and returns the same on each
+   of these runs *)
+Theorem escapeBytes_runs_obligation :
+  forallb run_row_ok gen_escapeBytes_runs = true /\
+  forallb model_row_ok gen_escapeBytes_runs = true.
+Proof. split; [exact fact_escapeBytes_runs|exact fact_escapeBytes_model_agrees]. Qed.
+
+(* non vacuity: a byte slice of 1540 bytes in JavaScript is six calls (quote,
+   two blocks of 1024, the rest, the last byte, quote); [1,a<] with the writer
+   failing at its fourth call *)
+Example C13_show_writes_examples :
+  map (fun c => nlen c) (escapeBytes_chunks true (repeat 65 1540)) = [1; 1024; 1024; 4; 4; 1] /\
+  show_prog gen_ContextJS (SvJ (JSeq [JText [49]; JStr [97; 60]])) = Some (show_js (JSeq [JText [49]; JStr [97; 60]])) /\
+  show_js (JSeq [JText [49]; JStr [97; 60]]) (fun j => if j =? 4 then Some 7 else None) w0
+  = (mkW 4 [[91]; [49]; [44]], RErr 7).
+Proof.
+  split; [exact (proj1 escapeBytes_chunk_example)|]. split; [reflexivity|exact (proj2 show_js_example)].
 Qed.
 
 (* T1 obligations *)
